@@ -139,11 +139,11 @@ def require_ok(r: TlcResult, what: str):
 # Batch judging
 
 
-def _judge_one(module, path, envv, heap, timeout):
+def _judge_one(module, path, envv, heap, timeout, cfg="Judge.cfg"):
     meta = path + ".meta"
     shutil.rmtree(meta, ignore_errors=True)
     cmd = _java(heap=heap) + ["-workers", "1", "-metadir", meta, "-noGenerateSpecTE",
-                              "-config", "Judge.cfg", module + ".tla"]
+                              "-config", cfg, module + ".tla"]
     e = dict(os.environ)
     e["GV_RECS"] = path
     if envv:
@@ -254,7 +254,7 @@ def gv_prints(out):
     return res
 
 
-def judge(module, records, tag, envv=None, chunk=40000, heap="1500m", timeout=1800, jobs=8):
+def judge(module, records, tag, envv=None, chunk=40000, heap="1500m", timeout=1800, jobs=8, cfg="Judge.cfg"):
     """Judge records with spec/<module>.tla (must print <<"GVBAD", {<<k, why>>...}, n>>).
 
     Returns (bad, n_judged) where bad = list of (record_index, why).  Raises
@@ -274,7 +274,7 @@ def judge(module, records, tag, envv=None, chunk=40000, heap="1500m", timeout=18
     total = 0
 
     def run(ch):
-        return ch, _judge_one(module, ch[1], envv, heap, timeout)
+        return ch, _judge_one(module, ch[1], envv, heap, timeout, cfg)
 
     with ThreadPoolExecutor(max_workers=jobs) as ex:
         for (c, path, n), out in ex.map(run, chunks):
